@@ -200,9 +200,9 @@ theorem agg_concat_merge_all {O : Oracles} {q : AggStmt} (hwf : StmtWF q)
       tableOfSummaries O q (mergeG (combineS (slotList q)) S₁ S₂) = some t :=
   table_concat_merge_all hwf hOI r₁ r₂ h h₁ h₂ hsafe
 
-/-- every order-insensitive aggregate is the `finish` of its part-wise summary … -/
+/-- every order-insensitive aggregate is the `finishSummary` of its part-wise summary … -/
 theorem aggregate_is_finished_summary (k : AggKind) (hk : orderInsensitive k = true) (vs : List Value) :
-    aggregate k vs = (summarize k vs).bind (finish k) := aggregate_eq_finish k hk vs
+    aggregate k vs = (summarize k vs).bind (finishSummary k) := aggregate_eq_finish k hk vs
 
 /-- … and the summary of a concatenation is the combination of the summaries (monoid homomorphism per aggregate) -/
 theorem summary_of_concat (k : AggKind) (v₁ v₂ : List Value) {s s₁ s₂ : Summary}
@@ -335,7 +335,7 @@ example : mergeKeyed exMerge [([.null], [.int 2, .int 4, .int 1])] [([.null], [.
 
 /-- AVG over two parts through its components: (6, 2 values) and (3, 1 value) combine to (9, 3 values), average 3 -/
 example : (summarize (.avg (.column "v")) [.int 2, .int 4]).bind (fun a => (summarize (.avg (.column "v")) [.null, .int 3]).bind
-    (fun b => finish (.avg (.column "v")) (combine (.avg (.column "v")) a b))) = some (.int 3) := rfl
+    (fun b => finishSummary (.avg (.column "v")) (combine (.avg (.column "v")) a b))) = some (.int 3) := rfl
 /-- COUNT(DISTINCT) through set union: {1, 2} and {2, 3} unite to three values -/
 example : combine (.count (some "v") true) (.distinct [.int 1, .int 2]) (.distinct [.int 2, .int 3]) = .distinct [.int 1, .int 2, .int 3] := rfl
 
